@@ -280,6 +280,63 @@ def _arg_fresh_at_sites(p: Project, fname: str, argpos: int, allow_recursive_in:
     return True, f"{len(sites)} call sites pass a fresh object"
 
 
+def _judged_at_call_sites(p: Project, ctx: "Ctx", w: Write, schema, depth: int = 2) -> Tuple[bool, str]:
+    """a PRIVATE helper (leading underscore, or a nested function) that changes an object it is handed is judged
+    where it is called: allowed iff every call site passes, for that parameter, a fresh object or an object the
+    calling function itself may change (its own triage entry).  Anything else - public helper, no call site, argument
+    not a plain name / positional - leaves the write to the general rule."""
+    name = ctx.fn.name
+    nested = bool(ctx.outer)
+    if not nested and not (name.startswith("_") and not name.startswith("__")):
+        return False, ""
+    root = root_name(w.target)
+    params = [a.arg for a in ctx.fn.args.args]
+    if root not in params:
+        return False, ""
+    pos = params.index(root)
+    sites = [s_ for s_ in _call_sites(p, name) if s_[0] == ctx.modname]
+    if not sites:
+        return False, ""
+    for modname, qn, cls, fn, call in sites:
+        if fn is None or fn is ctx.fn:
+            return False, ""
+        # bound calls (self._h(x) / cls._h(x)) do not pass the receiver positionally
+        shift = 1 if (isinstance(call.func, ast.Attribute) and ctx.recv is not None) else 0
+        arg = None
+        if pos - shift >= 0 and len(call.args) > pos - shift and not any(isinstance(a_, ast.Starred) for a_ in call.args):
+            arg = call.args[pos - shift]
+        else:
+            arg = next((k_.value for k_ in call.keywords if k_.arg == root), None)
+        if arg is None:
+            return False, ""
+        c2 = Ctx(p, modname, qn, cls, fn)
+        node = next((n_ for n_ in c2.cfg.nodes if any(c_ is call for c_ in n_.calls())), None)
+        if node is None:
+            return False, ""
+        k2, why2 = classify_value(arg, node, c2)
+        if k2 == "fresh":
+            continue
+        if k2 in ("param", "unknown") and isinstance(arg, ast.Name):
+            # the same store, seen from the caller: the helper's parameter replaced by the caller's argument
+            from .dataflow import clone
+
+            tgt2 = clone(w.target)
+            for x_ in ast.walk(tgt2):
+                if isinstance(x_, ast.Name) and x_.id == root:
+                    x_.id = arg.id
+            stmt2 = node.stmt
+            w2 = Write(w.kind, tgt2, node, stmt2)
+            allowed2, _r = triage(c2, w2, "param", why2, schema)
+            if allowed2 is True:
+                continue
+            if allowed2 is None and depth > 0:
+                ok3, _ = _judged_at_call_sites(p, c2, w2, schema, depth - 1)
+                if ok3:
+                    continue
+        return False, ""
+    return True, f"private helper: each of its {len(sites)} call site(s) passes a fresh object or one the caller may change"
+
+
 # --------------------------------------------------------------------------
 def class_level_container(ci: ClassInfo, holder: str):
     """((class, stmt) | None, owned): where `holder` is bound to a mutable container display in a class body of the
@@ -333,6 +390,14 @@ def triage(ctx: Ctx, w: Write, kind: str, why: str, schema: Schema):
             # a record type built from fresh literals: _State([], {}, -1, False) / _State(args=[], kwargs={}, ...)
             parts_ = list(init.args) + [k.value for k in init.keywords]
             fresh = bool(parts_) and all(isinstance(e, (ast.List, ast.Dict, ast.Constant, ast.UnaryOp)) for e in parts_)
+            if not parts_ and isinstance(init.func, ast.Name):
+                # _State(): a repo class whose __init__ (self only) binds nothing but fresh literals
+                rc_ = p.resolve(mod, init.func.id)
+                if isinstance(rc_, ClassInfo):
+                    i_ = rc_.own_func("__init__")
+                    if i_ is not None and len(i_.args.args) == 1 and not i_.args.vararg and not i_.args.kwarg:
+                        vals_ = [st_.value for st_ in ast.walk(i_) if isinstance(st_, (ast.Assign, ast.AnnAssign)) and st_.value is not None]
+                        fresh = bool(vals_) and all(isinstance(e, (ast.List, ast.Dict, ast.Constant, ast.UnaryOp)) and not getattr(e, "elts", None) and not getattr(e, "keys", None) for e in vals_)
         sites = [s for s in _call_sites(p, inner.name)]
         return fresh and not sites, "accumulator of functools.reduce, whose initial value is a fresh literal; no other call site" if fresh and not sites else f"accumulator not provably fresh (initial={ast.unparse(init) if init is not None else None}, other call sites={len(sites)})"
     # 4. _listAppend(root, member): root allocated by the caller
@@ -533,6 +598,11 @@ def e_rules(p: Project, rep: Report, thorough=False, func_filter=None):
             if allowed is False:
                 rep.check("E-R2" if kind == "param" else "E-R1", key, False, reason, ctx.where(w.stmt))
                 continue
+            if kind == "param":
+                ok_, reason_ = _judged_at_call_sites(p, ctx, w, schema)
+                if ok_:
+                    rep.check("E-R2", key, True, reason_, ctx.where(w.stmt))
+                    continue
             if kind == "param":
                 rep.check("E-R2", key, False, f"mutates an object it was given ({why}) without first re-binding it to a copy: the caller's tree / model / stream is changed by parsing, converting or writing", ctx.where(w.stmt))
             elif kind in ("self", "cls", "global"):
